@@ -8,6 +8,7 @@ func init() {
 	vHarnesses["H_C17_seq"] = H_C17_seq
 	vHarnesses["H_C17_fault"] = H_C17_fault
 	vHarnesses["H_C17_race"] = H_C17_race
+	vHarnesses["H_C17_close_race"] = H_C17_close_race
 }
 
 func vStoreCfg(dir string) *StorageConfig {
@@ -37,6 +38,7 @@ func H_C17_seq() {
 	lock := dir + "/LOCK"
 	var open []*PersistentHybridIndex // handles currently believed open (at most one can be)
 	var closed []*PersistentHybridIndex
+	prepared := map[*PersistentHybridIndex]HybridSearch{} // a query built while the handle was open
 	n := 2 + vChoose("len", 4)
 	for i := 0; i < n; i++ {
 		switch vChoose(vName("op", i), 3) {
@@ -51,6 +53,7 @@ func H_C17_seq() {
 				vAssert(err == nil && s != nil, "open-of-a-free-directory-succeeds")
 				vAssert(vFSExists(lock), "lock-present-while-open")
 				open = append(open, s)
+				prepared[s] = s.NewSearch().WithVector([]float32{1}).WithK(1)
 			}
 		case 1: // Close the open handle
 			if len(open) == 0 {
@@ -70,6 +73,10 @@ func H_C17_seq() {
 			before := vFSList()
 			vAssert(s.Close() != nil, "second-close-reports-an-error")
 			vClosedHandleFails(s)
+			if ps := prepared[s]; ps != nil {
+				_, pe := ps.Execute()
+				vAssert(pe != nil, "prepared-search-after-close-is-error")
+			}
 			vAssert(vFSList() == before, "use-after-close-changes-nothing")
 			if len(open) > 0 {
 				vAssert(vFSExists(lock), "old-handle-does-not-release-the-new-owner-s-lock")
@@ -119,6 +126,7 @@ func H_C17_race() {
 	done := make(chan int, 2)
 	vSchedFork(true)
 	vPreempt(2)
+	vFSSched(2) // every file-system call of Open is a pre-emption point (create LOCK | write pid | list ...)
 	for g := 0; g < 2; g++ {
 		g := g
 		go func() {
@@ -143,4 +151,45 @@ func H_C17_race() {
 	}
 	vAssert(!vFSExists(dir+"/LOCK"), "lock-released")
 	vCover("ran")
+}
+
+// an Open racing with the Close of the current owner (which still has data to persist): if the new owner
+// gets in, the old owner has finished with the directory — nothing of it is written afterwards
+func H_C17_close_race() {
+	dir := vTempDir()
+	s, err := OpenPersistentHybridIndex(vStoreCfg(dir))
+	vAssert(err == nil, "open-ok")
+	vAssert(s.AddWithID(1, []float32{1}, "fox", nil) == nil, "add-ok")
+	var s2 *PersistentHybridIndex
+	var err2, cerr error
+	atOpen := ""
+	done := make(chan int, 2)
+	vSchedFork(true)
+	vPreempt(1)
+	vFSSched(1)
+	go func() {
+		cerr = s.Close()
+		done <- 0
+	}()
+	go func() {
+		s2, err2 = OpenPersistentHybridIndex(vStoreCfg(dir))
+		if err2 == nil {
+			atOpen = vFSList()
+		}
+		done <- 1
+	}()
+	<-done
+	<-done
+	vPreempt(0)
+	vFSSched(0)
+	vAssert(cerr == nil, "close-ok")
+	if err2 == nil {
+		vAssert(vFSList() == atOpen, "old-owner-writes-nothing-after-the-new-owner-opened")
+		vCover("new-owner-got-in")
+		vAssert(s2.Close() == nil, "close-ok")
+	} else {
+		vAssert(s2 == nil, "failed-open-returns-no-handle")
+		vCover("open-refused")
+	}
+	vAssert(!vFSExists(dir+"/LOCK"), "lock-released")
 }
